@@ -4,8 +4,10 @@
    fit), Model/Gate.v (life cycle of daily / billing / hourly model objects, shared with C04).
    Which side-effecting statements the source contains is a configuration read from the source on every run
    (Generated/C02Gen.v); every statement below is proved for ALL configurations: it holds exactly for those without
-   the offending statements, and the configuration of the code as it is today (`ascoded_cfg`, `caltrack_ascoded`)
-   refutes it — the witnesses are replayed on the implementation by harness/c02.py (known findings C02-K1..K6).
+   the offending statements, and the configuration of the code as it was found (`ascoded_cfg`: all three hourly
+   statements present; `caltrack_ascoded`) refutes it — the witnesses are replayed on the implementation by
+   harness/c02.py from corpus/C02.json (findings C02-K1..K9; K1/K2 were repaired in /repo by 6b499d87, after which the
+   generated configuration has assigns_back = false and the check no longer reports them).
    PARTIAL: whether a pandas operation returns a view or a copy is runtime behaviour the models cannot exhibit;
    they state ownership, the harness observes real in-place writes. *)
 From Coq Require Import ZArith List Bool.
@@ -43,7 +45,7 @@ Theorem C02_history_independent_iff : forall cfg, C02_history_independent_statem
 Proof. exact history_independent_iff. Qed.
 Print Assumptions C02_history_independent_iff.
 
-(* the code as it is (all three present) violates both; the witnesses: a table learned for January and February, a
+(* the code as found (all three present) violates both; the witnesses: a table learned for January and February, a
    January week predicted first, then January+February without observed usage (the February label is forward-filled
    from January instead of the fitted one) *)
 Theorem C02_predict_pure_ascoded_refuted : ~ C02_predict_pure_statement ascoded_cfg.
@@ -62,7 +64,7 @@ Proof.
 Qed.
 Print Assumptions C02_history_independent_ascoded_refuted.
 
-(* what the code as it is does satisfy: a reporting set that covers exactly the fitted (month, day) combinations
+(* what every configuration satisfies: a reporting set that covers exactly the fitted (month, day) combinations
    (a full year), without a GHI column the model ignores and without a new supplemental column, leaves the model alone *)
 Theorem C02_predict_covering_partial : forall cfg fill s d, covers s d -> next_state cfg fill s d = s.
 Proof. exact covering_next_state. Qed.
